@@ -96,6 +96,58 @@ def run(ctx):
         if mo.get("i") != rdj:
             res.disagreements.append({"stream": "codec.decode", "input": {"fl": f, "b": b},
                                       "model": mo.get("i"), "code": rdj})
+    # concurrent encoders: several threads serialising at once must each get the published bytes
+    # (no state may be shared between serialisations)
+    import sys as _sys
+    import threading
+    # group classes by their serialize implementation (shared by all classes of one shape)
+    groups = {}
+    for (f, c, i) in cases:
+        if H.T.operand_fields(c) and H.real_encode(i) is not None:
+            g = groups.setdefault(c.serialize, {})
+            g.setdefault(c, [])
+            if len(g[c]) < 6:
+                g[c].append(i)
+    old_iv = _sys.getswitchinterval()
+    _sys.setswitchinterval(1e-6)
+    bad = []
+    try:
+        rounds = 600 if ctx.thorough else 150
+        for g in groups.values():
+            insts = [x for lst in g.values() for x in lst][:16]
+            if len(insts) < 2:
+                continue
+            refs = [H.spec_encode(type(x).id, H.shape_of(type(x)), H.instr_to_json(x)["o"]) for x in insts]
+            nthreads = 4
+            barrier = threading.Barrier(nthreads)
+            outs = [[] for _ in range(nthreads)]
+
+            def worker(k, insts=insts, refs=refs, outs=outs, barrier=barrier):
+                mine = list(zip(insts, refs))[k::2] if k < 2 else list(zip(insts, refs))[::-1]
+                barrier.wait()
+                for _ in range(rounds):
+                    for inst, ref in mine:
+                        try:
+                            b = list(bytes(inst.serialize()))
+                        except Exception:
+                            b = None
+                        if b != ref and len(outs[k]) < 3:
+                            outs[k].append((H.instr_to_json(inst), b, ref))
+
+            ths = [threading.Thread(target=worker, args=(k,)) for k in range(nthreads)]
+            for t in ths:
+                t.start()
+            for t in ths:
+                t.join()
+            res.evaluations += 1
+            res.count("concurrent-shape-group")
+            for o in outs:
+                bad += o
+    finally:
+        _sys.setswitchinterval(old_iv)
+    for (j, b, ref) in bad[:5]:
+        res.failures.append({"what": "bytes differ from the published layout when several threads serialise "
+                                     "concurrently", "kf": None, "input": {"i": j, "real": b, "reference": ref}})
     # subroutine header
     for app in [0, 1, 255, 256, 0x1234, 65535] + [rng.randrange(65536) for _ in range(20)]:
         for ver in [(0, 0), (0, 10), (255, 1), (rng.randrange(256), rng.randrange(256))]:
